@@ -38,7 +38,7 @@ def plan(tier, seed):
 def rand_cfg(r):
     inc = {c: r.random() < 0.7 for c in CATS}
     return {"include": inc, "use_color": r.random() < 0.5, "color_words": r.random() < 0.3,
-            "use_git": r.random() < 0.6, "use_diff": r.random() < 0.6, "path_variant": r.choice(["full", "full", "diffonly", "bare"])}
+            "use_git": r.random() < 0.6, "use_diff": r.random() < 0.6, "path_variant": r.choice(["full", "full", "diffonly", "bare", "spaced"])}
 
 
 _how = [0]
@@ -66,9 +66,9 @@ def make_pp(cfg, out):
 
 def renderer_of(cfg):
     v = cfg["path_variant"]
-    if cfg["use_git"] and v == "full":
+    if cfg["use_git"] and v in ("full", "spaced"):
         return "git"
-    if cfg["use_diff"] and v in ("full", "diffonly"):
+    if cfg["use_diff"] and v in ("full", "diffonly", "spaced"):
         return "diff"
     return "difflib"
 
